@@ -49,6 +49,20 @@ def base_and_mode(text):
     elif words[:1] and words[0] == "digits": mode = "digits"
     return base, mode
 
+def judge_text(impl, shown):
+    """the text the user sees (`n u w` rendering) must carry what the fields say: the numeral, the
+    constant factor / divisor of the conversion target, and every unit name with its power"""
+    f = fields(impl)
+    fac, div = unhexs(f["factor"]), unhexs(f["div"])
+    if fac and ("* " + fac) not in shown:
+        return "the printed text %r does not show the factor %s of the conversion target" % (shown, fac)
+    if div and not any(x in shown for x in ("/ " + div, "| " + div, "/" + div)):
+        return "the printed text %r does not show the divisor %s of the conversion target" % (shown, div)
+    for t in (unhexs(f["exact"]), unhexs(f["approx"])):
+        if t and t not in shown:
+            return "the printed text %r does not show the numeral %s" % (shown, t)
+    return None
+
 def judge_line(text, impl, aux, lk):
     if not impl.startswith("parts "):
         return None
@@ -78,7 +92,7 @@ def judge_line(text, impl, aux, lk):
     if unhexs(f["factor"]): K *= int(unhexs(f["factor"]))
     if unhexs(f["div"]): K /= int(unhexs(f["div"]))
     # expected quantity
-    if kind == "conv" and aux and aux.get("top") not in (None, "float") and "->" in text and f["rawunit"] != "none" and unhexs(f["unit"]) is not None and rawd == {}:
+    if kind == "conv" and aux and aux.get("top") not in (None, "float") and "->" in text and f["rawunit"] != "none" and rawd == {}:
         want = frac(aux["top"]); wantd = parse_dims(aux["topdims"])
     else:
         want = raw; wantd = rawd
@@ -131,6 +145,7 @@ def run(c):
         return
     rd = lambda n: open(os.path.join(c.work, n), encoding="utf-8", errors="replace").read().split("\n")
     R, I, A, L = rd("req.txt"), rd("impl.txt"), rd("aux.txt"), rd("lookups.txt")
+    S = rd("side.txt") if os.path.exists(os.path.join(c.work, "side.txt")) else []
     checked = 0
     for i in range(len(R)):
         if not R[i] or i >= len(I) or i >= len(L) or not L[i]:
@@ -138,12 +153,14 @@ def run(c):
         text = vlib.decode_req(R[i])
         aux = json.loads(A[i]) if i < len(A) and A[i] else None
         bad = judge_line(text, I[i], aux, json.loads(L[i]))
+        if not bad and i < len(S) and S[i].startswith("text="):
+            bad = judge_text(I[i], bytes.fromhex(S[i][5:]).decode("utf-8", "replace"))
         checked += 1 if I[i].startswith("parts ") else 0
         if bad:
             c.violation(text, "input %r: %s" % (text, bad), {"kind": "input", "input": text, "impl": I[i], "oracle": bad}, found=True)
     c.coverage["oracle_checked"] = checked
     c.coverage.update({
-        "rule": "database units (1/12 sample in quick, all in thorough) x magnitudes 1e-30..1e30 at SI prefix boundaries x {0.999,1,1000,...} x powers 1..3; products/quotients of up to four base units with exponents -3..3 (derived-unit regrouping); conversions with constants, prefixes, compound targets, digits / base / sci / eng modes; every field of NumberParts is compared with the Lean model; oracle: numeral (re-read independently) x factor / divfactor x product of the printed unit names (resolved by Context::lookup) = the computed quantity, exactly for exact numerals, within one last-digit unit otherwise; dimensionality shown = the result's",
+        "rule": "database units (1/12 sample in quick, all in thorough) x magnitudes 1e-30..1e30 at SI prefix boundaries x {0.999,1,1000,...} x powers 1..3; products/quotients of up to four base units with exponents -3..3 (derived-unit regrouping); conversions with constants, prefixes, compound targets, digits / base / sci / eng modes; every field of NumberParts is compared with the Lean model; oracle: numeral (re-read independently) x factor / divfactor x product of the printed unit names (resolved by Context::lookup) = the computed quantity, exactly for exact numerals, within one last-digit unit otherwise; dimensionality shown = the result's; the text the user sees (`n u w`) shows the numeral and the factor / divisor the fields carry",
         "samples": st.get("samples", [])[:8], "input_distribution": st,
     })
 
